@@ -31,6 +31,16 @@ def gen_cases(res, rng, tier):
                 if v:
                     b[i // 8] |= 0x80 >> (i % 8)
             cases.append("s %s %d %d" % (bytes(b).hex(), pos, ln))
+    # fields that end in the LAST byte of their buffer (no byte behind the field to fall back on), every width at
+    # every offset 0..15, buffer just long enough; random, all-ones and top-bit patterns
+    for ln in range(1, 65):
+        for pos in range(0, 16):
+            n = (pos + ln + 7) // 8
+            for pat in range(3):
+                buf = bytes(rng.getrandbits(8) for _ in range(n)) if pat == 0 else bytes([0xff] * n) if pat == 1 else bytes([0x80] + [0] * (n - 2) + [1])[:n] if n >= 2 else bytes([0x81])
+                cases.append("u %s %d %d" % (buf.hex(), pos, ln))
+                if ln >= 2:
+                    cases.append("s %s %d %d" % (buf.hex(), pos, ln))
     # long random buffers
     for _ in range(200 if tier == "quick" else 3000):
         n = rng.randint(1, 1100)
@@ -52,7 +62,7 @@ def gen_cases(res, rng, tier):
 
 def run(res, args):
     res.rule = ("exhaustive offsets 0..23 x widths 1..64 on pattern and random 12-byte buffers, minimum value of every "
-                "signed width at 9 alignments, random fields in buffers up to 1100 bytes, out-of-range reads; a case is "
+                "signed width at 9 alignments, every width at offsets 0..15 in a buffer that ends with the field, random fields in buffers up to 1100 bytes, out-of-range reads; a case is "
                 "non-trivial when the field is in range and its value is neither 0 nor all ones")
     res.assumptions = ["uint is 64 bits (amd64)", "the OCaml extraction (ExtrOcamlBasic only) preserves the model's meaning"]
     res.trusted = ["extraction: ExtrOcamlBasic directives only; N/Z/positive/nat as extracted datatypes",
